@@ -17,7 +17,7 @@ def hx(b):
 class C13(Prop):
     id = "C13"
     title = "Input framing ignores packet boundaries and survives any byte stream"
-    lean_modules = ["NV.C13.Props", "NV.C13.Witness", "NV.C13.Negative"]
+    lean_modules = ["NV.C13.Props", "NV.C13.Witness", "NV.C13.Negative", "NV.C13.TableTie", "NV.C13.Lemmas18"]
     theorems = ["NV.C13.ts_layout", "NV.C13.sb_array_has_room", "NV.C13.sb_in_bounds", "NV.C13.copy_chars_expansion",
                 "NV.C13.buffer_writes_in_bounds", "NV.C13.space_rule_sufficient", "NV.C13.space_rule_numbers",
                 "NV.C13.input_never_overflows", "NV.C13.segmentation_independent",
@@ -29,7 +29,10 @@ class C13(Prop):
                 "NV.C13.copyCharsO_ok", "NV.C13.asciiLoop_exact", "NV.C13.getUserData_ok",
                 "NV.C13.single_char_extraction_safe", "NV.C13.run_never_crashes", "NV.C13.getUserData_N",
                 "NV.C13.addConsoleLine_N", "NV.C13.console_lines_delivered", "NV.C13.console_line_exact",
-                "NV.C13.consoleLines_eq_cmdsOf", "NV.C13.statement_order_tie"]
+                "NV.C13.consoleLines_eq_cmdsOf", "NV.C13.statement_order_tie",
+                "NV.C13.cc_table_tie", "NV.C13.cc_table_states", "NV.C13.cc_table_total", "NV.C13.cc_table_no_crash",
+                "NV.C13.reframeLoop_len", "NV.C13.reframe_N", "NV.C13.setCall_N", "NV.C13.endInput_N",
+                "NV.C13.reframe_is_line_framing"]
     witness_theorems = ["NV.C13.sb_terminator_overflows_exact_array", "NV.C13.ayt_returns_to_data",
                         "NV.C13.full_sb_payload_is_not_text", "NV.C13.ascii_spec_example",
                         "NV.C13.burst_check", "NV.C13.telnet_lines_delivered_Full_false"]
@@ -482,6 +485,21 @@ def ccTable : List CcCfg := [
         B.append(E.Case("b-single-then-line-partial-move", ["port telnet", "iflag single", "chunk " + hx(b"ab"), "iflag line", "extract",
                         "chunk " + hx(b"c\r\n"), "drain", "iflag single", "chunk " + hx(b"\0\0xy"), "iflag line", "extract", "extract",
                         "chunk " + hx(b"z\r\n"), "drain"], {"origin": "boundary"}))
+        # get_char() / input_to() / serve: real set_call, call_function_interactive, reframe_single_char_input
+        def raw(name, lines):
+            B.append(E.Case("b-" + name, ["port telnet"] + lines, {"origin": "boundary", "port": "telnet"}))
+        ch = lambda b: "chunk " + hx(b)
+        raw("getchar-typeahead-line", [ch(b"ab"), "getchar", "serve", ch(b"look\r\nx"), "getchar", "serve", "serve", "serve", ch(b"\r\n"), "drain"])
+        raw("getchar-noecho-linemode", [ch(bytes([IAC, WILL, LM])), "getchar noecho", ch(b"yes\r\nn\r"), "serve", ch(b"\n"), "drain",
+                                        "inputto noecho", "inputto", ch(b"pw\r\n"), "serve", "getchar", "getchar noecho", "serve"])
+        raw("getchar-sga-reframe-mixed", [ch(bytes([IAC, WILL, TT])), "getchar", ch(b"a\rb\r\0c\r\r\nd"), "serve", "drain", ch(b"\r\n"), "drain"])
+        raw("getchar-cr-then-lf-after-mode-end", [ch(b"q\0"), "getchar", ch(b"go north\r"), "serve", ch(b"\nsouth\r\n"), "serve", "drain"])
+        for pairs in (680, 681, 682, 683, 684, 800):
+            # raw CR LF pairs buffered in single-char mode expand 2 -> 3 bytes when reframed: room test of reframe
+            raw("reframe-room-%d" % pairs, ["getchar", "send " + hx(b"x\0" + b"\r\n" * pairs + b"t"), "read", "read", "read", "read", "serve",
+                                           "drain", ch(b"\r\nafter\r\n"), "drain"])
+        raw("reframe-room-lone-crs", ["getchar", "send " + hx(b"x\0" + b"a\r" * 700 + b"\r\n"), "read", "read", "read", "read", "serve", "drain"])
+        raw("inputto-then-extract", ["inputto noecho", ch(b"secret\r\nnext\r\n"), "extract", "serve", "inputto", "drain"])
         add("single-char-full", "telnet", [b"s" * 682, b"s" * 682, b"s" * 682, b"s" * 682], single_at=0, inter="end")
         return B
 
@@ -507,7 +525,7 @@ def ccTable : List CcCfg := [
             i += 1
             cid = "g%d" % i
             kind = rng.weighted([("tshort", 6), ("tmix", 8), ("tmal", 5), ("tlong", 2), ("ascii", 4), ("asciilong", 1), ("binary", 1),
-                                 ("console", 3), ("single", 1)])
+                                 ("console", 3), ("single", 1), ("getchar", 2)])
             if kind == "tshort":
                 # short stream: the unsplit run plus ALL 2-splits
                 s = self.g_telnet_stream(rng, rng.range(2, 5), rng.choice(["text", "telnet", "telnet", "malformed"]))[:28]
@@ -552,11 +570,35 @@ def ccTable : List CcCfg := [
                 for how in ("one", "few", "many"):
                     C.append(self.mk_case("%s-%s" % (cid, how), "console", self.segment(rng, s, how), rng,
                                           rng.choice(["end", "each", "rand"]), console=True))
+            elif kind == "getchar":
+                # the user object switches modes with get_char() / input_to(); lines typed ahead in single-char mode
+                # are reframed when the mode ends
+                s = self.g_telnet_stream(rng, rng.range(3, 30), rng.choice(["text", "text", "telnet", "malformed"])) + b"\r\n"
+                if rng.chance(1, 4):
+                    s = b"\r\n" * rng.range(300, 700) + s
+                for how in ("few", "many"):
+                    lines = ["port telnet"]
+                    if rng.chance(1, 2):
+                        lines.append("chunk " + hx(bytes([IAC, rng.choice([WILL, WONT]), rng.choice([LM, TT, SGA])])))
+                    for c in self.segment(rng, s, how):
+                        k = rng.weighted([("none", 4), ("getchar", 3), ("inputto", 1), ("serve", 4), ("extract", 1), ("drain", 1)])
+                        if k in ("getchar", "inputto"):
+                            lines.append(k + (" noecho" if rng.chance(1, 3) else ""))
+                        elif k != "none":
+                            lines.append(k)
+                        lines.append("chunk " + hx(c))
+                    lines += ["serve", "serve", "finish", "drain"]
+                    C.append(E.Case("%s-%s" % (cid, how), lines, {"origin": "generated", "port": "telnet"}))
             else:
                 s = self.g_telnet_stream(rng, rng.range(3, 30), rng.choice(["text", "telnet", "malformed"])) + b"\r\n"
                 ch = self.segment(rng, s, rng.choice(["few", "many"]))
                 C.append(self.mk_case(cid, "telnet", ch, rng, "rand", single_at=rng.below(max(1, len(ch)))))
         return C
+
+    def shrink_ok(self, lines):
+        """a shrunk case is still a case: scripted callback outcomes, then `port`, then steps"""
+        body = [l for l in lines if not l.startswith("cb ")]
+        return bool(body) and body[0].startswith("port ") and len(body) > 1
 
     def mutate_around(self, case, rng, n):
         """re-segment the stream of the differing case"""
@@ -582,6 +624,8 @@ def ccTable : List CcCfg := [
             for l in c.lines:
                 if l.startswith("cb "):
                     h["scripted_" + l.split()[-1]] = h.get("scripted_" + l.split()[-1], 0) + 1
+                elif l.startswith(("getchar", "inputto", "serve")):
+                    h["op_" + l.split()[0]] = h.get("op_" + l.split()[0], 0) + 1
                 elif l == "iflag single":
                     h["single_char_cases"] = h.get("single_char_cases", 0) + 1
             h["cases_by_port"][port] = h["cases_by_port"].get(port, 0) + 1
